@@ -105,6 +105,25 @@ func runC18Walk(t *testing.T, sc *world.Scenario) *check.Result {
 	_ = os.WriteFile(valueFile, []byte("41000\n"), 0644)
 	_ = os.WriteFile(script, []byte("#!/bin/sh\necho . >> "+marker+"\ncat "+valueFile+"\n"), 0755)
 	_ = os.Symlink(script, link)
+	// the same file under a relative name with a directory part (a hard link: one inode, one set of
+	// attributes), with the harness's working directory in dir; and below that directory a file of the same
+	// relative name that is anybody's - which nothing may ever run
+	_ = os.MkdirAll(filepath.Join(dir, "rel", "rel"), 0755)
+	relName := "rel/probe.sh"
+	decoyMarker := filepath.Join(dir, "decoy-marker")
+	if err := os.Link(script, filepath.Join(dir, relName)); err != nil {
+		res.Harness = "link: " + err.Error()
+		return res
+	}
+	decoy := filepath.Join(dir, "rel", relName)
+	_ = os.WriteFile(decoy, []byte("#!/bin/sh\necho . >> "+decoyMarker+"\necho 99\n"), 0777)
+	_ = os.Chown(decoy, otherID, otherID)
+	_ = os.Chmod(decoy, 0777)
+	if err := os.Chdir(dir); err != nil {
+		res.Harness = "chdir: " + err.Error()
+		return res
+	}
+	defer func() { _ = os.Chdir("/") }()
 	cfgFile := filepath.Join(dir, "fan2go.yaml")
 	cfgLink := filepath.Join(dir, "fan2go-link.yaml")
 	_ = os.WriteFile(cfgFile, []byte("# placeholder\n"), 0644)
@@ -138,6 +157,9 @@ func runC18Walk(t *testing.T, sc *world.Scenario) *check.Result {
 		path, cpath := script, cfgFile
 		if p.symlink {
 			path, cpath = link, cfgLink
+		} else if kernel.NewRand(sc.Seed, fmt.Sprintf("c18walk.rel.%d", i)).Bool(0.25) {
+			path = relName // exec: rel/probe.sh, relative to the working directory
+			res.Probe("relative-exec-paths")
 		}
 		allowed := refAllowed(p)
 		runnable := p.mode&0o111 != 0
@@ -194,6 +216,10 @@ func runC18Walk(t *testing.T, sc *world.Scenario) *check.Result {
 		after := markerLines(marker)
 		ran := after > before
 		res.Probe("executions-judged")
+		if markerLines(decoyMarker) > 0 {
+			res.Violate("C18", "rejected-not-executed", "rejected-not-executed another-file path="+path, i, nil, "exec %q (checked file: %+v): a file that belongs to uid %d with mode 0777 was executed", path, p, otherID)
+			return res
+		}
 		switch {
 		case !allowed && ran:
 			res.Violate("C18", "rejected-not-executed", "rejected-not-executed "+sig, i, nil, "executable with %+v (mode %o) must be rejected, but it was executed (marker grew %d → %d, call error %v)", p, p.mode, before, after, callErr)
